@@ -43,6 +43,12 @@ PROPS = {
             "C16_remove_card_refines": [],
             "C16_insert_card_refines": [],
             "C16_get_card_refines": [],
+            "C16_step_refines_partial": [],
+            "C16_replace_back": [],
+            "C16_swap_fail_unchanged": [],
+            "C16_failed_edit_unchanged": [],
+            "C16_walk_complete_unique_partial": [],
+            "C16_visit_children_unfold": [],
             "C16_swap_same_refuted": [],
             "C16_call_insert_refuted": [],
             "C16_get_depth_refuted": [],
